@@ -1,7 +1,8 @@
 (* C21 correspondence.  Messages are compared as bytes: the implementation's
    delivered messages re-encoded by the harness vs. the model's items
    re-encoded by the CBOR core. *)
-From PV Require Import Lib.Base Cbor.Item Cbor.Enc Cbor.Dec C21.Model C21.CborCodec.
+From PV Require Import Lib.Base Cbor.Item Cbor.Enc Cbor.Dec C21.CborCodec.
+From PV Require Export C21.Model.
 Open Scope Z_scope.
 
 (* run-length shorthand used by the harness for long constant payloads *)
@@ -14,6 +15,11 @@ Inductive case : Type :=
 | COldSplits (stream : list Z) (tail : list (list Z)) (msgs : list (list Z))
 (* send_msg_chunks of each encoding, then receive *)
 | COldSent (encs : list (list Z)) (msgs : list (list Z)) (status : Z)
+(* a polling consumer: segments arrive / recv_full_msg is called under a short timeout and
+   abandoned when it would wait; then the bearer is closed and the consumer waits.  msgs =
+   everything the calls returned, in order (which poll returned what depends on timing and
+   is not compared) *)
+| COldPoll (evs : list poll_event) (msgs : list (list Z)) (status : Z)
 (* new stack: (raw channel, chunk) segments -> delivered (channel, bytes), final partial_chunks (sorted), status *)
 | CNew (segs : list (Z * list Z)) (out : list (Z * list Z)) (fin : list (Z * list Z)) (status : Z)
 | CNewSplits (raw : Z) (stream : list Z) (msgs : list (list Z))
@@ -39,6 +45,15 @@ Definition old_ok (segs msgs : list (list Z)) (status : Z) : bool :=
   | Ok _ => (status =? 0) && msgs_eqb ms msgs
   | Err e => if e =? E_DECODING then (status =? 1) && msgs_eqb ms msgs
              else (status =? 3) && is_prefix msgs ms
+  | Panic _ => false
+  end.
+
+Definition old_poll_ok (evs : list poll_event) (msgs : list (list Z)) (status : Z) : bool :=
+  let '(items, fin) := drive_then_wait item_dec evs in
+  let ms := map encode_item items in
+  match fin with
+  | Ok _ => (status =? 0) && msgs_eqb ms msgs
+  | Err e => if e =? E_DECODING then (status =? 1) && msgs_eqb ms msgs else false
   | Panic _ => false
   end.
 
@@ -68,6 +83,7 @@ Definition case_ok (c : case) : bool :=
   | COld segs msgs status => old_ok segs msgs status
   | COldSplits stream tail msgs => forallb (fun s => old_ok (s ++ tail) msgs 0) (splits stream)
   | COldSent encs msgs status => old_ok (concat (map (chunks MAX_SEGMENT_PAYLOAD_LENGTH) encs)) msgs status
+  | COldPoll evs msgs status => old_poll_ok evs msgs status
   | CNew segs out fin status => new_ok segs out fin status
   | CNewSplits raw stream msgs =>
     forallb (fun s => new_ok (map (fun x => (raw, x)) s) (map (fun m => (strip_mode raw, m)) msgs) [] 0) (splits stream)
@@ -81,6 +97,7 @@ Definition case_out (c : case) :=
   | COld segs _ _ => (Some (old_run segs), None)
   | COldSplits stream tail _ => (Some (old_run ([stream] ++ tail)), None)
   | COldSent encs _ _ => (Some (old_run (concat (map (chunks MAX_SEGMENT_PAYLOAD_LENGTH) encs))), None)
+  | COldPoll evs _ _ => (Some (let '(items, fin) := drive_then_wait item_dec evs in (map encode_item items, fin)), None)
   | CNew segs _ _ _ => (None, Some (new_run segs))
   | CNewSplits raw stream _ => (None, Some (new_run [(raw, stream)]))
   | CNewSent raw encs _ _ _ => (None, Some (new_run (map (fun x => (raw, x)) (concat (map (chunks MAX_SEGMENT_PAYLOAD_LENGTH) encs)))))
